@@ -7,6 +7,7 @@ The obligations over the generated Cartesian→pure tables are in `Props/C06Tabl
 -/
 import Iodata.Lemmas.Overlap
 import Iodata.Lemmas.OverlapIntegral
+import Iodata.Model.CartPure
 
 set_option linter.unusedSectionVars false
 set_option linter.unusedSimpArgs false
@@ -100,6 +101,9 @@ theorem normalisation_rational [CharZero K] (α : K) (hα : α ≠ 0) (nx ny nz 
   push_cast
   field_simp [hf]
   ring
+
+/-- non-vacuity: the model evaluates (the value the real code returns for these arguments is -0.42421875) -/
+example : kernel 2 3 ((1 : Rat) / 2) (-(3 : Rat) / 4) ((5 : Rat) / 2) = -(543 : Rat) / 1280 := by decide +kernel
 
 end algebra
 
@@ -381,4 +385,90 @@ theorem normalisation_pi_part (α : ℝ) (hα : 0 < α) :
   rw [this, Real.one_rpow]
 
 end real
+
+/-! ### soundness of the interval arithmetic used by `Props/C06Tables.lean`
+
+Every real quantity assembled by the checker `Iodata.CartPure.checkTable` from the table entries with
+`I.scale`, `I.add`, `I.mulPos` and the enclosures `invSqrt d` of `1/√d` lies in the rational interval the
+checker computes, and `I.within` then bounds its distance from the target by the tolerance `10⁻¹²`.
+(The composition over the list folds of `checkTable` itself is by construction, not restated here.) -/
+section Intervals
+open Iodata.CartPure Real
+
+/-- the real number `x` lies in the rational interval `a` -/
+def I.mem (x : ℝ) (a : I) : Prop := ((a.1 : ℚ) : ℝ) ≤ x ∧ x ≤ ((a.2 : ℚ) : ℝ)
+
+theorem I.mem_add {x y : ℝ} {a b : I} (hx : I.mem x a) (hy : I.mem y b) : I.mem (x + y) (I.add a b) := by
+  unfold I.mem I.add at *
+  push_cast
+  constructor <;> linarith [hx.1, hx.2, hy.1, hy.2]
+
+theorem I.mem_scale {x : ℝ} {a : I} (q : ℚ) (hx : I.mem x a) : I.mem ((q : ℝ) * x) (I.scale q a) := by
+  unfold I.mem I.scale at *
+  by_cases hq : q < 0
+  · have hq' : (q : ℝ) < 0 := by exact_mod_cast hq
+    simp only [hq, if_true]
+    push_cast
+    constructor <;> nlinarith [hx.1, hx.2]
+  · have hq' : (0 : ℝ) ≤ q := by exact_mod_cast (not_lt.mp hq)
+    simp only [hq, if_false]
+    push_cast
+    constructor <;> nlinarith [hx.1, hx.2]
+
+theorem I.mem_mulPos {x y : ℝ} {a b : I} (ha : 0 ≤ a.1) (hb : 0 ≤ b.1) (hx : I.mem x a) (hy : I.mem y b) :
+    I.mem (x * y) (I.mulPos a b) := by
+  unfold I.mem I.mulPos at *
+  have ha' : (0 : ℝ) ≤ ((a.1 : ℚ) : ℝ) := by exact_mod_cast ha
+  have hb' : (0 : ℝ) ≤ ((b.1 : ℚ) : ℝ) := by exact_mod_cast hb
+  push_cast
+  constructor
+  · exact mul_le_mul hx.1 hy.1 hb' (le_trans ha' hx.1)
+  · exact mul_le_mul hx.2 hy.2 (le_trans hb' hy.1) (le_trans (le_trans ha' hx.1) hx.2)
+
+theorem I.within_sound {x : ℝ} {a : I} {c tol : ℚ} (h : I.within a c tol = true) (hx : I.mem x a) :
+    |x - (c : ℝ)| ≤ (tol : ℝ) := by
+  unfold I.within at h
+  simp only [Bool.and_eq_true, decide_eq_true_eq] at h
+  have h1 : ((c - tol : ℚ) : ℝ) ≤ ((a.1 : ℚ) : ℝ) := by exact_mod_cast h.1
+  have h2 : ((a.2 : ℚ) : ℝ) ≤ ((c + tol : ℚ) : ℝ) := by exact_mod_cast h.2
+  push_cast at h1 h2
+  rw [abs_le]
+  constructor <;> linarith [hx.1, hx.2]
+
+/-- the enclosure of `1/√d` is verified by squaring inside the checker: if the flag is set the true value is inside -/
+theorem invSqrt_sound (d : ℕ) (h : (invSqrt d).2 = true) : I.mem (1 / √(d : ℝ)) (invSqrt d).1 := by
+  unfold invSqrt at h ⊢
+  simp only [Bool.and_eq_true, decide_eq_true_eq] at h
+  obtain ⟨⟨h1, h2⟩, h3⟩ := h
+  set lo : ℚ := ((Nat.sqrt (two64 * two64 / d) : ℕ) : ℚ) / two64 with hlo
+  set hi : ℚ := ((Nat.sqrt (two64 * two64 / d) + 1 : ℕ) : ℚ) / two64 with hhi
+  have hd : (0 : ℝ) < d := by exact_mod_cast (by omega : 0 < d)
+  have hs : 0 < √(d : ℝ) := Real.sqrt_pos.mpr hd
+  have hlo0 : (0 : ℝ) ≤ (lo : ℝ) := by
+    have : (0 : ℚ) ≤ lo := by rw [hlo]; positivity
+    exact_mod_cast this
+  have hhi0 : (0 : ℝ) ≤ (hi : ℝ) := by
+    have : (0 : ℚ) ≤ hi := by rw [hhi]; positivity
+    exact_mod_cast this
+  have e1 : (lo : ℝ) * lo * d ≤ 1 := by exact_mod_cast h1
+  have e2 : 1 ≤ (hi : ℝ) * hi * d := by exact_mod_cast h2
+  have hsq : √(d : ℝ) * √(d : ℝ) = d := Real.mul_self_sqrt hd.le
+  unfold I.mem
+  constructor
+  · -- lo ≤ 1/√d  ⇔  lo·√d ≤ 1
+    rw [le_div_iff₀ hs]
+    by_contra hc
+    have hc := not_le.mp hc
+    have : 1 < ((lo : ℝ) * √(d : ℝ)) * ((lo : ℝ) * √(d : ℝ)) := by nlinarith
+    nlinarith
+  · rw [div_le_iff₀ hs]
+    by_contra hc
+    have hc := not_le.mp hc
+    have hpos : 0 ≤ (hi : ℝ) * √(d : ℝ) := by positivity
+    have : ((hi : ℝ) * √(d : ℝ)) * ((hi : ℝ) * √(d : ℝ)) < 1 := by nlinarith
+    nlinarith
+
+
+end Intervals
+
 end Iodata.Props.C06
